@@ -194,6 +194,40 @@ pub const P_ELISP: &str = "0011211";
 pub const R_DEFAULT: &str = "0011100000";
 pub const R_ELISP: &str = "1000011101";
 
+/// One input per error code (the same rows as the regenerated error table, DESIGN.md 4.1).
+pub const ERROR_TRIGGERS: &[(&str, &[u8])] = &[
+    ("eofList", b"(a"), ("eofVector", b"#(a"), ("eofString", b"\"a"), ("eofValue", b"#"), ("eofChar", b"#\\"),
+    ("expectedSomeIdent", b"#q"), ("mismatchedParenthesis", b"(a]"), ("expectedSomeValue", b")"), ("expectedVector", b"#u8 a"),
+    ("expectedOctet", b"#u8(256)"), ("invalidEscape", b"\"\\q\""), ("invalidNumber", b"1x"), ("invalidSymbol", b". "),
+    ("numberOutOfRange", b"1e999"), ("invalidUnicodeCodePoint", b"\"\\xD800;\""), ("invalidCharacterConstant", b"#\\foo"),
+    ("trailingCharacters", b"a b"),
+];
+
+fn strip_digits(s: &str) -> String {
+    s.chars().filter(|c| !c.is_ascii_digit()).collect()
+}
+
+/// The wording of an error message is no property's business: when a Display text is not one of the
+/// pinned tree's, the code is recovered from the texts the current build produces for the trigger inputs
+/// (compared with all digits removed, so that the location may be formatted in any way).
+fn learned_code(text: &str) -> Option<&'static str> {
+    static LEARNED: std::sync::OnceLock<Vec<(String, &'static str)>> = std::sync::OnceLock::new();
+    let table = LEARNED.get_or_init(|| {
+        let mut t: Vec<(String, &'static str)> = Vec::new();
+        for (name, input) in ERROR_TRIGGERS {
+            if let Err(e) = lexpr::from_slice(input) {
+                t.push((strip_digits(&e.to_string()), *name));
+            }
+        }
+        if let Err(e) = lexpr::from_slice("(".repeat(200).as_bytes()) {
+            t.push((strip_digits(&e.to_string()), "recursionLimitExceeded"));
+        }
+        t
+    });
+    let key = strip_digits(text);
+    table.iter().find(|(k, _)| *k == key).map(|(_, n)| *n)
+}
+
 /// Error code name from the Display text of a parse error.
 pub fn err_code(e: &lexpr::parse::Error) -> String {
     use lexpr::parse::error::Category;
@@ -224,7 +258,10 @@ pub fn err_code(e: &lexpr::parse::Error) -> String {
         "invalid character constant" => "invalidCharacterConstant",
         "trailing characters" => "trailingCharacters",
         "recursion limit exceeded" => "recursionLimitExceeded",
-        other => return format!("unknown[{}]", other),
+        _ => match learned_code(&text) {
+            Some(c) => c,
+            None => return format!("unknown[{}]", msg),
+        },
     };
     let loc = e.location().map(|l| (l.line(), l.column())).unwrap_or((0, 0));
     format!("err {} {} {}", code, loc.0, loc.1)
